@@ -129,9 +129,24 @@ def _custom_constructor_grid(ctx):
 
     def canon(v):
         return intro.pr(v) if isinstance(v, models.RawModel) else repr(v)
+    def flags(v):
+        """(kind, sign) of a value as `_disambiguate_values` sees it: n/a/o, first token of its number is a unary sign."""
+        if isinstance(v, decimal.Decimal):
+            return 'n', v.is_signed()
+        n = v if isinstance(v, models.NumberExpr) else v.raw_number if isinstance(v, models.Amount) else None
+        if n is None:
+            return 'o', False
+        return ('n' if isinstance(v, models.NumberExpr) else 'a'), type(n.first_token).__name__ == 'UnaryOp'
+
+    def wrapped(v, raw):
+        n = raw if isinstance(raw, models.NumberExpr) else raw.raw_number if isinstance(raw, models.Amount) else None
+        return n is not None and type(n.first_token).__name__ == 'LeftParen'
+    lock = []
     for q in seqs:
         for via in ('value', 'children'):
             vals = [alpha[k]() for k in q]
+            fl = [flags(v) for v in vals]
+            pre_paren = [wrapped(v, v) if isinstance(v, models.RawModel) else False for v in vals]
             try:
                 if via == 'value':
                     c = models.Custom.from_value(datetime.date(2000, 1, 1), 't', vals)
@@ -147,6 +162,10 @@ def _custom_constructor_grid(ctx):
                 continue
             ctx.case(('custom-constructor', via, len(q), tuple(k[0] for k in q)))
             want = [canon(v) for v in c.values]
+            # the model of the disambiguation loop (theorem disamb_reads_all): which values were put in parentheses
+            got_w = ''.join('1' if (wrapped(None, r) and not pp) else '0' for r, pp in zip(c.raw_values, pre_paren))
+            lock.append(('D ' + ','.join(k + ('1' if sg else '0') for k, sg in fl), f'ok {got_w} read={len(q)}',
+                         {'probe': 'custom-constructor', 'seq': list(q), 'via': via}))
             f = models.File.from_value([c])
             text = intro.pr(f)
             try:
@@ -157,7 +176,18 @@ def _custom_constructor_grid(ctx):
             if got != want:
                 ctx.oracle_fail('C06:custom-constructor:reparse', f'Custom.from_{via} with values {list(q)}: the model holds {want}, the printed text {text!r} '
                                 f're-reads as {got}', {'probe': 'custom-constructor', 'seq': list(q), 'via': via})
-                return
+                break
+        else:
+            continue
+        break
+    if lock and ctx.extra.get('model_available', True) and getattr(ctx, 'driver', None) is not None:
+        outs = ctx.driver.run([l for l, _, _ in lock])
+        bad = 0
+        for (l, exp, rep), out in zip(lock, outs):
+            if out.strip() != exp and bad < 3:
+                bad += 1
+                ctx.divergence('custom-disambiguation', {'line': l, 'model': out[:200], 'real': exp}, rep)
+        ctx.extra['custom_constructions_validated_against_model'] = len(lock)
 
 
 def run(ctx):
